@@ -31,15 +31,15 @@ import (
 )
 
 type mtlsIn struct {
-	Kind    string   `json:"kind"` // hand | verify | ctor | conc | race
-	Seeds   []int64  `json:"key_seeds,omitempty"`
-	SAllow  []int    `json:"server_allow,omitempty"` // indices into Seeds
-	CAllow  []int    `json:"client_allow,omitempty"`
-	SKey    int      `json:"server_key,omitempty"`
-	CKey    int      `json:"client_key,omitempty"`
-	Certs   []string `json:"certs,omitempty"` // ed:<i> | ecdsa | garbage | empty
-	KeyLens []int    `json:"key_lens,omitempty"`
-	Rounds  int      `json:"rounds,omitempty"`
+	Kind    string     `json:"kind"` // hand | verify | ctor | conc | race
+	Seeds   []int64    `json:"key_seeds,omitempty"`
+	SAllow  []int      `json:"server_allow,omitempty"` // indices into Seeds
+	CAllow  []int      `json:"client_allow,omitempty"`
+	SKey    int        `json:"server_key,omitempty"`
+	CKey    int        `json:"client_key,omitempty"`
+	Certs   []string   `json:"certs,omitempty"` // ed:<i> | ecdsa | garbage | empty
+	KeyLens []int      `json:"key_lens,omitempty"`
+	Rounds  int        `json:"rounds,omitempty"`
 	Steps   [][2][]int `json:"steps,omitempty"` // seq: per connection attempt the (server, client) allow-lists installed by Replace
 	// verify: a SECOND allow-list object built from the same key slice gets this list installed by Replace first;
 	// the list under test must not notice (allow-lists are independent objects)
@@ -83,7 +83,10 @@ func tryConnect(sPriv, cPriv ed25519.PrivateKey, sAllow, cAllow []ed25519.Public
 	}
 	return tryConnectWith(
 		func(c net.Conn) (net.Conn, error) { conn, _, e := sCreds.ServerHandshake(c); return conn, e },
-		func(c net.Conn) (net.Conn, error) { conn, _, e := cCreds.ClientHandshake(context.Background(), "peer", c); return conn, e })
+		func(c net.Conn) (net.Conn, error) {
+			conn, _, e := cCreds.ClientHandshake(context.Background(), "peer", c)
+			return conn, e
+		})
 }
 
 func tryConnectCfg(sCfg, cCfg *tls.Config) (bool, string) {
